@@ -2,9 +2,10 @@ SPECIFICATION Spec
 CONSTANTS
   MaxB = 3
   MaxN = 3
-  ValTab <- ValsPrime
+  AllSubsets = TRUE
   Refs = {0, 1, 2, 3, 4}
   Canon = TRUE
-  Kinds = {"R","G","Z","Y","LV","LI","V","VL","I","IL","S","O"}
+  ValTab <- ValsPrime
+  Kinds = {"R","Y","LV","V","VL","I","IL","S","O"}
 INVARIANT Check
 CHECK_DEADLOCK FALSE
